@@ -97,6 +97,17 @@ def witnesses(tier, seed):
                     eager += '%s t%d = matmul(%s,m%d); ' % (T([dims[0], dims[i + 1]]), i, prev, i); prev = 't%d' % i
                 eager += 'c = %s;' % prev
                 W.append(pair(t, 'chain.%s' % 'x'.join(map(str, dims)), P, lazy, eager, [dims[0], dims[L]], mode='ALG', dest_init='undef'))
+        # chains consumed by every assignment operator, for extents that make the cost model associate to the left and to the right
+        for dims in [(3, 3, 3, 3), (2, 3, 4, 5), (3, 4, 5, 2), (5, 2, 3, 4), (2, 2, 2, 2, 2), (2, 5, 3, 2, 4)]:
+            L = len(dims) - 1
+            P = [('m%d' % i, [dims[i], dims[i + 1]]) for i in range(L)]
+            chain = ' % '.join('m%d' % i for i in range(L))
+            eager, prev = '', 'm0'
+            for i in range(1, L):
+                eager += '%s t%d = matmul(%s,m%d); ' % (T([dims[0], dims[i + 1]]), i, prev, i); prev = 't%d' % i
+            for op in ASG:
+                W.append(pair(t, 'chain.%s.%s' % (OPN[op], 'x'.join(map(str, dims))), P, 'c %s %s;' % (op, chain), eager + 'c %s %s;' % (op, prev), [dims[0], dims[L]], mode='ALG'))
+            W.append(pair(t, 'chain.dminus.%s' % 'x'.join(map(str, dims)), P + [('d', [dims[0], dims[L]])], 'c = d - %s;' % chain, eager + 'c = d - %s;' % prev, [dims[0], dims[L]], mode='ALG'))
     return group_sort(W)
 
 
